@@ -185,10 +185,13 @@ CHECKS["C15"] = dict(
     rule="(A) a real resource manager whose RWMutex is the scheduler-aware shim and whose cache/policy fields are access-checking proxies; 2-3 logical threads, 1-2 requests each, on colliding pods/containers; every schedule up to the preemption "
          "bound; oracle: every proxied cache/policy access happens under the resource manager lock, no deadlock, no panic, final state equals the final state of some sequential order, and a reply is still what its handler returned when it is consumed "
          "(a scheduling point of its own between the handler's return and the consumption of its reply models the transport); "
-         "(B) InsertPod + GetPodResources vs the fetch goroutine vs the environment (go/chan operations rewritten to scheduler calls); states = schedules executed, transitions = scheduling points; non-trivial = schedules",
+         "(B) InsertPod + GetPodResources vs the fetch goroutine vs the environment (go/chan operations rewritten to scheduler calls); states = schedules executed, transitions = scheduling points; non-trivial = schedules; "
+         "(C) corroboration, not part of the decision: the same menus run free (real goroutines, no scheduler, 30/300 repetitions each) in a -race binary, replies consumed after the handler returns; a race-detector report is a violation, silence adds nothing to the coverage statement",
     bound=dict(quick="preemption bound 2", thorough="preemption bound 3 (pipeline) / unbounded (fetch)"),
-    assumptions=["scheduling points: resmgr lock operations, proxied cache/policy calls, goroutine creation and channel operations in cache/pod.go; plain memory accesses between points are atomic (data races at the memory-model level are out of scope)",
+    assumptions=["scheduling points: resmgr lock operations, proxied cache/policy calls, the hand-over of a reply, goroutine creation and channel operations in cache/pod.go; plain memory accesses between points are atomic for the exhaustive part (unsynchronised accesses between points are only sampled, by the free-running race-detector pass)",
                  "menus run with the metrics exporter off and on: with it on, the policy metrics are polled through a private registry gatherer on a scheduler thread of its own and pkg/metrics' mutex is the scheduler-aware shim, so metrics.Block() in updateTopologyZones and the collector's callback into the policy take part in the schedules"],
     stages=[dict(pkg="./pkg/resmgr/cache", run="TestVerifC15Fetch", shards=1),
-            dict(pkg="./pkg/resmgr", run="TestVerifC15", shards=16, quick=dict(deadline_s=420), thorough=dict(deadline_s=3000))],
+            dict(pkg="./pkg/resmgr", run="TestVerifC15", shards=16, quick=dict(deadline_s=420), thorough=dict(deadline_s=3000)),
+            # corroboration only (sampling): the same menus free-running under the race detector
+            dict(pkg="./pkg/resmgr", run="TestVerifC15Race", shards=4, race=True)],
 )
